@@ -966,7 +966,12 @@ def compare_gear_vars(tr, j, w):
                 a = e[var][j]
                 if var == 'contact stress':
                     a = a * a
-                sc = max(abs(a), abs(mv), 1e-12)
+                # (a force that cancels to exactly 0.0 in floats is a tiny non-zero rational in the model: the scale is the
+                # size this variable reaches on this element during the history, not the size of the cancelled value)
+                hist = max((abs(x) for x in e[var] if isinstance(x, (int, float)) and x == x), default=0.0)
+                if var == 'contact stress':
+                    hist = hist * hist
+                sc = max(abs(a), abs(mv), hist, 1e-12)
                 if not abs(a - mv) <= 1e-8 * sc:
                     return f'instant {j} element {ei} {var}' + (' (squared)' if var == 'contact stress' else '') + f': {a} vs model {mv}'
     return None
